@@ -19,4 +19,8 @@ if os.path.exists('MANIFEST.json'):
     check('MANIFEST.json', '/root/.vp/MANIFEST.schema.json')
 for f in sorted(glob.glob('evidence/*.json')):
     check(f, '/root/.vp/EVIDENCE.schema.json')
+    c = json.load(open(f)).get('coverage', {})
+    if c.get('distinct_nontrivial', 0) > c.get('evaluations', 0):
+        ok = False
+        print('FAIL', f, 'distinct_nontrivial exceeds evaluations: accounting error in the worker')
 sys.exit(0 if ok else 1)
